@@ -18,6 +18,9 @@ Driver for C16.  Ops (one history per case; every token an integer, -1 = nil poi
   px <dry> <hasLim> <capNode> <capNs> <capTotal>   new framework + limiter
   pev <node> <ns> <plugOk> <fresh>      evictorProxy.Evict                 -> ev …
   pconc <fresh> <n> (<node> <ns>)*      n goroutines                       -> conc …
+  pxm <nfw>                             nfw frameworks (profiles) built over the ONE limiter of the preceding px
+  pev <node> <ns> <plugOk> <fresh> <fw> evictorProxy.Evict through framework fw -> ev …
+  pconcm <fresh> <n> (<fw> <node> <ns>)*  n goroutines through proxies of >= 2 different frameworks -> conc …
  harness cycle (pkg/descheduler)
   cy <dry> <capNode> <capNs> <capTotal>  new Descheduler + EvictionLimiter shared by its profiles
   cyc <n1> <n2> (<node> <ns> <apiOk>)*   one deschedulerOnce: n1 attempts in the Deschedule phase, n2 in the Balance phase
@@ -72,6 +75,11 @@ structure DSt where
 
 def podsOf : List Int → List Pod
   | a :: b :: r => ⟨a.toNat, b.toNat⟩ :: podsOf r
+  | _ => []
+
+/-- (framework, node, namespace) triples: the limiter is shared, so the framework does not matter to the outcome -/
+def podsOfFw : List Int → List Pod
+  | _ :: a :: b :: r => ⟨a.toNat, b.toNat⟩ :: podsOfFw r
   | _ => []
 
 def triplesOf : List Int → List (Pod × Bool)
@@ -132,6 +140,14 @@ def runLine (d : DSt) (line : String) : DSt × List String :=
       | "pev", [n, s, ok, _fresh] =>
         let r := pxEvict d.lim d.dry d.ctr ⟨n.toNat, s.toNat⟩ (ok ≠ 0)
         ({ d with ctr := r.1 }, [showEv r])
+      | "pxm", [_nfw] => (d, [])
+      | "pev", [n, s, ok, _fresh, _fw] =>
+        let r := pxEvict d.lim d.dry d.ctr ⟨n.toNat, s.toNat⟩ (ok ≠ 0)
+        ({ d with ctr := r.1 }, [showEv r])
+      | "pconcm", _fresh :: n :: ps =>
+        if ps.length ≠ 3 * n.toNat then (d, ["bad-op"]) else
+        let r := seqAll (fun c p => pxEvict d.lim d.dry c p true) d.ctr (podsOfFw ps)
+        ({ d with ctr := r.1 }, [s!"conc {r.2.1} {r.2.2} {showCtr r.1}"])
       | "pconc", _fresh :: n :: ps =>
         if ps.length ≠ 2 * n.toNat then (d, ["bad-op"]) else
         let r := seqAll (fun c p => pxEvict d.lim d.dry c p true) d.ctr (podsOf ps)
